@@ -149,7 +149,7 @@ def logo_deck(u: dict) -> bytes:
 
 
 class Run:
-    def __init__(self, U, scratch: str, nimg: int, logo: int = 0, npre: int = 0):
+    def __init__(self, U, scratch: str, nimg: int, logo: int = 0, npre: int = 0, alias: bool = False):
         import pptx
         self.pptx = pptx
         self.U = U
@@ -165,7 +165,14 @@ class Run:
                 self.prs.slides[1].shapes.add_picture(io.BytesIO(U[i]["bytes"]), 1000 * i, 2000 * i)
             b = io.BytesIO()
             self.prs.save(b)
-            self.prs = pptx.Presentation(io.BytesIO(b.getvalue()))
+            raw = b.getvalue()
+            if alias:       # the JPEG parts declared as another producer spells the type
+                mem = D.read_zip(io.BytesIO(raw))
+                mem["[Content_Types].xml"] = mem["[Content_Types].xml"].replace(b'"image/jpeg"', b'"image/jpg"')
+                out = io.BytesIO()
+                D.write_zip(mem, out)
+                raw = out.getvalue()
+            self.prs = pptx.Presentation(io.BytesIO(raw))
         self.pics = []
         self.refs = []            # (slide position, shape id) of every recorded picture, to re-read what it shows now
         self.last_raw = None
@@ -281,8 +288,8 @@ class Run:
         return {"media": sorted(media, key=lambda m: m["name"]), "pics": self._pics_now(), "dup": "<<duplicate-member>>" in members}
 
 
-def run_history(hid, h, U, scratch, nimg, logo=0, npre=0):
-    run = Run(U, scratch, nimg, logo, npre)
+def run_history(hid, h, U, scratch, nimg, logo=0, npre=0, alias=False):
+    run = Run(U, scratch, nimg, logo, npre, alias)
     steps, saved = [], []
     init = run.observe()
 
